@@ -21,6 +21,15 @@ def run(ctx):
         scripts.append(("inject-shm-%d" % k, plan("shm_open") + ["shmnew 64", "units 1"] + plan("sem_wait") + ["shmlock", "shmunlock"] + plan("sem_wait") + ["shmlock", "shmunlock", "shmfree"]))
         # the lock semaphore of a segment is opened inside p_shm_new as well
         scripts.append(("inject-shm-sem-%d" % k, ["plan " + ",".join(["shm_open:EINTR"] * (k // 2) + ["sem_open:EINTR"] * k)] * (1 if k else 0) + ["shmnew 64", "units 1", "shmlock", "shmunlock", "shmfree"]))
+    # ... and at every later invocation: opening objects that exist already takes other branches (exclusive creation fails first, then the
+    # plain open; CREATE mode unlinks and creates again; a segment opens its lock semaphore as well)
+    for pos in range(1, 5):
+        for k in (1, 3):
+            pl = lambda call: "plan " + ",".join([call + ":OK"] * (pos - 1) + [call + ":EINTR"] * k)
+            scripts.append(("inject-semopen-%d-%d" % (pos, k), ["semnew 1", pl("sem_open"), "semopen 1", "units 1", "acquire", "release", "semfree"]))
+            scripts.append(("inject-semcreate-%d-%d" % (pos, k), ["semnew 1", pl("sem_open"), "semcreate 2", "units 2", "acquire", "release", "semfree"]))
+            scripts.append(("inject-shmopen-%d-%d" % (pos, k), ["shmnew 64", pl("shm_open"), "shmopen 64", "units 1", "shmlock", "shmunlock", "shmfree"]))
+            scripts.append(("inject-shmopen-sem-%d-%d" % (pos, k), ["shmnew 64", pl("sem_open"), "shmopen 64", "units 1", "shmlock", "shmunlock", "shmfree"]))
     # (a) real signals: timer storms with a handler installed without SA_RESTART
     for period in ([300, 2000, 20000] if ctx.quick else [200, 500, 1000, 3000, 10000, 20000, 50000]):
         scripts.append(("storm-sleep-%d" % period, ["storm %d" % period, "sleep 60", "sleep 5", "sleep 130", "storm 0"]))
